@@ -22,6 +22,7 @@ fi
   echo "From Ekit Require Import Common."
   cat $LISTS | grep '^Require ' | sort -u | sed 's/^Require \(.*\)$/From Ekit Require \1./'
   echo "Extraction Language OCaml."
+  echo "Extraction Blacklist List String Buffer Char Printf Hashtbl Array Sys Stdlib Random Bytes."
   echo "Separate Extraction"
   echo "  Z.add Z.mul Z.sub Z.opp Z.div_eucl Z.div Z.modulo Z.of_nat Z.to_nat Z.of_N Z.to_N"
   echo "  Z.eqb Z.ltb Z.leb Z.compare Nat.add N.add N.of_nat N.to_nat Pos.succ"
